@@ -20,7 +20,7 @@ RULE = ('Objective family (SPD quadratic with condition up to 1e8, quadratic+qua
         'failure exit, or a boundary / negative-curvature step.')
 ASSUMPTIONS = ['the dense Cholesky stand-in for scikit-sparse (shims/sksparse) is the preconditioner back end',
                'rounding bound for descent: 64*n*ulp*(f_abs(x_k)+f_abs(x_k+1)) with f_abs the sum of absolute terms',
-               'success on convex problems is asserted on the sub-domain: Hessian spectrum over minimiser, start point and every reported iterate within a condition number of 1e3, |x0-x*| <= 50, default settings, exact preconditioner']
+               'success on convex problems is asserted on the sub-domain: Hessian spectrum over minimiser, start point and every reported iterate within a condition number of 1e3, |x0-x*| <= 2e4 (start points over six decades), default settings, exact preconditioner']
 
 NS = [1, 2, 3, 5, 8, 12]
 _O = {}
@@ -69,7 +69,7 @@ def convex_cases(draw):
     n = NS[draw(st.integers(0, len(NS) - 1))]
     fam = obj.CONVEX[draw(st.integers(0, 2))]
     coef = draw(obj.coefficients(n, family=fam, cond_exp=(0.0, 3.0)))
-    x0 = onp.array(draw(st.lists(gen.floats(-1, 1), min_size=n, max_size=n))) * draw(gen.logfloat(-2, 1))
+    x0 = onp.array(draw(st.lists(gen.floats(-1, 1), min_size=n, max_size=n))) * draw(gen.logfloat(-2, 4))
     other = draw(obj.coefficients(n, family='spdquad', cond_exp=(0.0, 2.0)))
     return {'n': n, 'coef': coef, 'x0': x0.tolist(), 'entry': 'nes', 'pre': 'exact', 'settings': None, 'other': other,
             'warm': draw(st.booleans()), 'updatePrecond': True, 'default_domain': True}
@@ -165,7 +165,7 @@ def check(case):
     classes = [coef['family'], case['entry'], 'pre-' + case['pre'], 'n%d' % n]
     if case['default_domain']:
         xs, gs = obj.dense_minimiser(n, coef, case['x0'])
-        if gs < 1e-10 * (1 + g0) and onp.linalg.norm(xs - onp.array(case['x0'])) <= 50:
+        if gs < 1e-10 * (1 + g0) and onp.linalg.norm(xs - onp.array(case['x0'])) <= 2e4:
             H = onp.asarray(fh(np.array(xs), p_req))
             w = onp.linalg.eigvalsh(0.5 * (H + H.T))
             # "well-conditioned" has to hold where the solver works, not only at the minimiser: the Hessian spectrum over the
